@@ -30,14 +30,14 @@ type SStep struct {
 
 // PlanC08 is one scripted-server run against a real client channel.
 type PlanC08 struct {
-	Script  []SStep   `json:"script"`
-	EncSel  string    `json:"enc_sel"`  // client's encryption selector: "", none, tls
-	Auth    string    `json:"auth"`     // client's authenticator kind
-	TLSCfg  bool      `json:"tls_cfg"`  // client transport has a TLS configuration
-	CtxMs   int       `json:"ctx_ms"`   // EstablishSession context (deadline)
-	After   []SStep   `json:"after"`    // what the server sends once the client reported an established session
-	Faults  FaultSpec `json:"faults"`   // server->client direction
-	Buf     int       `json:"buf"`
+	Script []SStep   `json:"script"`
+	EncSel string    `json:"enc_sel"` // client's encryption selector: "", none, tls
+	Auth   string    `json:"auth"`    // client's authenticator kind
+	TLSCfg bool      `json:"tls_cfg"` // client transport has a TLS configuration
+	CtxMs  int       `json:"ctx_ms"`  // EstablishSession context (deadline)
+	After  []SStep   `json:"after"`   // what the server sends once the client reported an established session
+	Faults FaultSpec `json:"faults"`  // server->client direction
+	Buf    int       `json:"buf"`
 }
 
 var optLists = [][]string{{"none"}, {"none", "tls"}, {"tls"}, {}, {"bogus"}, {"none", "none"}, {"tls", "none", "gzip"}}
